@@ -20,7 +20,12 @@
        predict / predict_expectations / partial_fit; a replaced neighbourhood bandit reports the predictions of the library
        bandit driven by predict / partial_fit (..._partial: NOT of the public protocol with the expectations read in
        between - that statement is refuted on the model with a concrete witness, finding D13, and on the code).
-    NOT MODELLED: the > 1 GB chunking branch (one chunk per run / batch here), confusion matrices, plotting; LinTS under a
+     * CHUNKED DRIVERS (sim_offline_chunked / sim_online_chunked: the branch taken when the shared distance list would exceed 1 GB; these
+       are the functions the correspondence runs, with the real chunk size or one lowered from outside): when every batch fits into one
+       chunk they ARE the plain drivers (so every theorem above speaks about what is executed); in a genuinely chunked run the per-chunk
+       distance dictionaries still never couple the bandits.  Chunking changes how many row seeds a randomised bandit draws per call, so no
+       equality with the un-chunked public protocol is claimed for randomised policies there.
+    NOT MODELLED: confusion matrices, plotting, the scaler option of the Simulator; LinTS under a
     neighbourhood policy is excluded (finding D8); context-free bandits are driven by n successive predict() calls by
     definition of the model (checked against the Simulator by the correspondence, against the API by the replay relation). *)
 From Coq Require Import List ZArith Bool Arith QArith Qcanon Permutation.
@@ -83,6 +88,38 @@ Theorem C15_online_bandits_do_not_influence_each_other :
   sim_online N aeqb RG bs lo batches orcs = per_bandit N aeqb RG bs lo batches orcs.
 Proof. exact @online_bandits_do_not_influence_each_other. Qed.
 Print Assumptions C15_online_bandits_do_not_influence_each_other.
+
+Theorem C15_chunked_offline_driver_is_the_plain_one_when_the_test_set_fits_a_chunk :
+  forall (R A G : Type) (N : Num R) (aeqb : A -> A -> bool) (RG : RngOps R G) 
+    (c : nat) (bs : list (sbandit * (@report R A))) (test : (@batch R A)) (o : list (@borc R A)),
+  (1 <= length (b_ds test))%nat ->
+  (length (b_ds test) <= c)%nat ->
+  cx_slice 0 (length (b_ds test)) (b_cx test) = b_cx test ->
+  sim_offline_chunked N aeqb RG c bs test [o] = sim_offline N aeqb RG bs test o.
+Proof. exact @offline_chunked_single_chunk. Qed.
+Print Assumptions C15_chunked_offline_driver_is_the_plain_one_when_the_test_set_fits_a_chunk.
+
+Theorem C15_chunked_online_driver_is_the_plain_one_when_batches_fit_a_chunk :
+  forall (R A G : Type) (N : Num R) (aeqb : A -> A -> bool) (RG : RngOps R G) 
+    (c : nat) (batches : list (@batch R A)) (bs : list (sbandit * (@report R A))) (lo : nat) 
+    (orcs : list (list (@borc R A))),
+  Forall
+    (fun bt : (@batch R A) =>
+     (1 <= length (b_ds bt) <= c)%nat /\ cx_slice 0 (length (b_ds bt)) (b_cx bt) = b_cx bt) batches ->
+  length orcs = length batches ->
+  sim_online_chunked N aeqb RG c bs lo batches (map (fun o : list (@borc R A) => [o]) orcs) =
+  sim_online N aeqb RG bs lo batches orcs.
+Proof. exact @online_chunked_single_chunks. Qed.
+Print Assumptions C15_chunked_online_driver_is_the_plain_one_when_batches_fit_a_chunk.
+
+Theorem C15_chunked_bandits_do_not_influence_each_other :
+  forall (R A G : Type) (N : Num R) (aeqb : A -> A -> bool) (RG : RngOps R G)
+    (bounds : list (nat * nat)) (bs : list (sbandit * (@report R A))) (cx : option (list (list R))) 
+    (lo : nat) (orcs : list (list (@borc R A))) (H : (@mat R)),
+  Forall (shares_history H) (map fst bs) ->
+  sim_chunk_loop N aeqb RG bs cx lo bounds orcs = sim_chunk_loop_each N aeqb RG bs cx lo bounds orcs.
+Proof. exact @chunked_bandits_do_not_influence_each_other. Qed.
+Print Assumptions C15_chunked_bandits_do_not_influence_each_other.
 
 Theorem C15_training_a_replaced_bandit_gives_the_library_state :
   forall (R A G : Type) (N : Num R) (aeqb : A -> A -> bool) (RG : RngOps R G) 
